@@ -292,6 +292,12 @@ class View:
             q = cur + (comp,)
             loc = self.locate(q)
             k = loc[0]
+            if k in ("excluded", "unsupported", "nomanifest") and comps and \
+                    any(len(root) > len(q) and root[:len(q)] == q for root in self.c.mounts):
+                # the path may go on into a mount nested inside this one: a path below an inner mount point
+                # resolves in the inner mount, whatever the outer mount is
+                cur = q
+                continue
             if k in ("secret", "outside", "excluded", "unsupported", "nomanifest", "missing"):
                 return loc + (q,), through
             if k == "rootdir" or k == "colldir":
